@@ -427,6 +427,11 @@ func (g *genState) headers() *SNode {
 	for i := 0; i < k; i++ {
 		n.Props = append(n.Props, &SProp{Key: fmt.Sprintf("X-H%d", g.id()), Node: &SNode{Kind: "string", Val: g.word()}})
 	}
+	if g.opt.AllowAllOf && g.r.Chance(1, 3) { // headers that inherit some of their fields
+		if bases := g.objectTypes(!g.opt.DeepAllOf); len(bases) > 0 {
+			n.AllOf = []string{bases[g.r.Intn(len(bases))].Name}
+		}
+	}
 	return n
 }
 
